@@ -25,7 +25,9 @@ import os
 #  network model it then never completed.  Was excluded by giving every link a null latency when a bandwidth profile exists.)
 #   bw-xtraffic      a bandwidth change on a link that carries only the cross-traffic of a communication corrupts that communication's sharing
 #                    penalty (abort when it becomes negative).  Excluded by switching cross-traffic off when a bandwidth profile exists.
-OPEN = set(x for x in os.environ.get("VF_C19_OPEN", "ti-profile-start,bw-xtraffic").split(",") if x)
+#   ti-pstate        cpu/optim:TI ignores a pstate change for the executions already running.  Excluded: no TI configuration when the
+#                    workload changes a pstate.
+OPEN = set(x for x in os.environ.get("VF_C19_OPEN", "ti-profile-start,bw-xtraffic,ti-pstate").split(",") if x)
 MARGIN = 1e-6      # a suspend / resume closer than this to the start or the completion of its activity makes the case tie-prone: not decided
 
 
@@ -93,7 +95,9 @@ def workloads(draw):
     for ai in range(draw(st.integers(1, 4))):
         host = draw(st.sampled_from(names))
         steps = []
-        kinds = ["exec", "exec", "exec", "sleep"] + (["comm", "comm"] if len(names) > 1 else []) + ["pstate"]
+        kinds = ["exec", "exec", "exec", "sleep"] + (["comm", "comm"] if len(names) > 1 else [])
+        if not (ti and "ti-pstate" in OPEN):
+            kinds.append("pstate")       # (TI-eligible cases keep away from the known TI + pstate class, or TI would never be compared)
         for _ in range(draw(st.integers(1, 5))):
             kind = draw(st.sampled_from(kinds))
             s = {"op": kind, "pause": draw(pauses())}
@@ -144,23 +148,49 @@ def workloads(draw):
     case["actors"] = actors
     # configurations compared with the default one
     has_ctl = any(c["do"] in ("suspend", "prio") for a in actors for st_ in a["steps"] for c in st_.get("ctl", []))
-    ti_cfg = ti and not (has_ctl and "ti-ctl" in OPEN)
+    has_pstate = any(st_["op"] == "pstate" for a in actors for st_ in a["steps"])
+    ti_cfg = ti and not (has_ctl and "ti-ctl" in OPEN) and not (has_pstate and "ti-pstate" in OPEN)
     cpus = ["LazySel", "Full", "FullSel", "FullNoSel"] + (["TI", "TI"] if ti_cfg else [])
     nets = ["Lazy", "LazySel", "Full", "FullSel", "FullNoSel"]
     combos = [[c, n] for c in ["Lazy"] + cpus for n in nets if not (c == "Lazy" and n == "Lazy")]
     case["configs"] = draw(st.lists(st.sampled_from(combos), min_size=2, max_size=3, unique_by=lambda x: tuple(x)))
+    if ti_cfg and not any(c[0] == "TI" for c in case["configs"]):
+        case["configs"][0] = ["TI", draw(st.sampled_from(nets))]      # a TI-eligible case always compares TI
     return case
 
 
 class C19(core.Prop):
     id = "C19"
     drivers = ["s4u_model"]
-    sizes = {"quick": 400, "thorough": 10000}
+    sizes = {"quick": 300, "thorough": 10000}
     max_workers = 6
     technique = ("property-based testing (Hypothesis): differential testing of generated workloads across the update algorithms and the "
                  "selective-update option; the default configuration (Lazy/Lazy) is the reference")
-    rule = ("")
-    assumptions = []
+    ready = True
+    rule = ("Generated exec/comm workloads on flat platforms with real sharing (vf/platgen.py: 1-3 hosts of 1-4 cores and 1-2 pstates, shared / "
+            "fat-pipe / split-duplex links, routes of 1-3 links): 1-4 actors, each a sequence of pauses, asynchronous execs (bounds, priorities, "
+            "threads, local or remote) and communications (raw/CM02/LV08/SMPI, cross-traffic on/off) waited at once or at the end, set_pstate; "
+            "while an exec runs its owner may suspend and resume it, change its priority (Exec::update_priority) or its bound (Action::set_bound); "
+            "1 case in 3 has availability profiles (host speed, link bandwidth; periodic or not). Each case is run under the default configuration "
+            "(cpu/optim:Lazy, network/optim:Lazy) and under 2-3 other LEGAL combinations of cpu/optim in {Lazy, Full, TI} x network/optim in "
+            "{Lazy, Full} x cpu|network/maxmin-selective-update in {default, yes, no} (Lazy with selective update off is refused by SimGrid; TI only "
+            "when the case keeps TI's preconditions: single-core hosts, no bound, no threads, periodic speed profiles whose first point is at "
+            "date 0 and whose last value is the first one). Oracle (differential): every operation of every actor (hence every activity "
+            "completion) returns at the same date as under the default configuration, within 2 x precision/timing + 1e-12 x date, with the same "
+            "outcome; a configuration that crashes or never completes an activity that the other completes is a violation. "
+            "Cases where a suspend or a resume lands within 1e-6 (relative) of the completion of its activity are tie-prone (discontinuous "
+            "outcome) and counted invalid. Non-trivial: some activity sees >= 3 changes of its granted rate, or a profile is attached to a "
+            "resource whose activities change rate.")
+    assumptions = ["tolerance 2e-9 s + 1e-12 x date: precision/timing is the granularity below which the models legally merge dates",
+                   "the default configuration is the reference; a defect common to all update algorithms is not visible to this differential "
+                   "(C20/C21 look at absolute values)",
+                   "known findings excluded by construction (counted in known/C19.json, replayed from replays/C19): TI with a speed profile "
+                   "whose first point is not at date 0; TI with a pstate change; a bandwidth profile together with cross-traffic (penalty "
+                   "corruption, abort)",
+                   "scenarios run with the interpreter's speed_change record off (\"quiet\":[\"onoff\"]): Host::get_available_speed() segfaults "
+                   "under cpu/optim:TI on a host without speed profile (known finding, replayed)",
+                   "bound changes of a running execution go through kernel::resource::Action::set_bound (what VirtualMachineImpl does); the S4U "
+                   "interface only sets bounds before the start"]
 
     def strategy(self, tier):
         return workloads()
@@ -285,13 +315,16 @@ class C19(core.Prop):
             feature = ":host-info"
         elif any("bw_profile" in l for l in case["platform"].get("links", [])) and any(l.get("lat", 0) > 0 for l in case["platform"].get("links", [])):
             feature = ":bw-profile+latency"
+        pfeat = ":pstate-change" if any(st_["op"] == "pstate" for a in case["actors"] for st_ in a["steps"]) else ""
         algo = lambda x: "TI" if x == "TI" else "Full" if x.startswith("Full") else "Lazy"
         for cpu, net in case["configs"]:
             if oc.violations:
                 break
-            cfgclass = algo(cpu) + "/" + algo(net)
+            cfgclass = "TI" if cpu == "TI" else algo(cpu) + "/" + algo(net)     # (the network side is irrelevant to a TI divergence)
             tifeat = ":profile-first-point-not-at-0" if cpu == "TI" and any(
                 h.get("speed_profile", {}).get("points", [[0.0]])[0][0] > 0 for h in case["platform"]["hosts"]) else ""
+            if cpu == "TI" and not tifeat:
+                tifeat = pfeat
             labels.add("cpu:" + cpu)
             labels.add("net:" + net)
             sc2, _, _ = self.scenario(case, cpu, net)
